@@ -323,8 +323,12 @@ class Server(_Server_):
         except BaseException as e:
             # Not only `Exception`: e.g. a `SystemExit` raised by the method would otherwise
             # end this thread, and the caller would find the connection closed.
-            msg = ('#ERROR', self._wrap_user_exc(e))
-            return msg
+            #
+            # Do not bind the message to a local variable: the traceback of `e` refers to
+            # this frame; a frame that refers back to the exception makes a reference cycle
+            # that keeps `args` (possibly proxies, hence hosted objects) and `obj` alive
+            # until the cyclic garbage collector happens to run.
+            return ('#ERROR', self._wrap_user_exc(e))
 
         typeid = gettypeid and gettypeid.get(methodname, None)
         if typeid:
